@@ -167,7 +167,7 @@ impl Property for C17 {
         vec!["canonical comparison ignores union member order and duplicate members, record field order, and the identity of the table constant a bare `---@type table` produces; alias references are compared by their expansion (the analyzer itself stores `A?` expanded and `A|nil` unexpanded)".into()]
     }
     fn cases(&self, tier: Tier) -> u32 {
-        tier.pick(120_000, 3_000_000)
+        tier.pick(360_000, 3_000_000)
     }
     fn strategy(&self, _tier: Tier) -> BoxedStrategy<Case> {
         (dt::world(), dt::ty(Profile::renderable()), prop_oneof![3 => Just(0u8), 1 => Just(1u8)]).prop_map(|(world, ty, level)| Case { world, ty, level }).boxed()
